@@ -955,6 +955,33 @@ fn replay_contains_cmd(a: &HashMap<String, String>) -> i32 {
     if bad > 0 { 1 } else { 0 }
 }
 
+fn replay_ffiseq_cmd(a: &HashMap<String, String>) -> i32 {
+    let path = a.get("in").expect("--in");
+    let out = a.get("out").cloned().unwrap_or_else(|| "/dev/null".into());
+    quiet_panics();
+    let f = BufReader::new(File::open(path).unwrap());
+    let mut ow = BufWriter::new(File::create(&out).unwrap());
+    let (mut n, mut bad, mut steps) = (0u64, 0u64, 0u64);
+    for line in f.lines() {
+        let line = line.unwrap();
+        if line.trim().is_empty() {
+            continue;
+        }
+        let v: Value = serde_json::from_str(&line).expect("vector json");
+        n += 1;
+        steps += v["hist"].as_array().map(|h| h.len() as u64).unwrap_or(0);
+        let (obs, diffs) = ffi::replay_ffiseq(&v);
+        if !diffs.is_empty() {
+            bad += 1;
+            serde_json::to_writer(&mut ow, &json!({"vector": v, "src": "ffi call history", "observed": obs, "diffs": diffs})).unwrap();
+            ow.write_all(b"\n").unwrap();
+        }
+    }
+    ow.flush().unwrap();
+    println!("{}", serde_json::to_string(&json!({"vectors": n, "mismatches": bad, "runs": steps})).unwrap());
+    if bad > 0 { 1 } else { 0 }
+}
+
 fn replay_types_cmd(a: &HashMap<String, String>) -> i32 {
     let path = a.get("in").expect("--in");
     let out = a.get("out").cloned().unwrap_or_else(|| "/dev/null".into());
@@ -1176,6 +1203,7 @@ fn main() {
         "replay-reg" => replay_reg_cmd(&a),
         "replay-types" => replay_types_cmd(&a),
         "replay-lit" => replay_lit_cmd(&a),
+        "replay-ffiseq" => replay_ffiseq_cmd(&a),
         "replay-contains" => replay_contains_cmd(&a),
         "gen-contains" => {
             let seed: u64 = a.get("seed").and_then(|s| s.parse().ok()).unwrap_or(1);
